@@ -63,6 +63,24 @@ def tfile_scripts(ctx, modes=("whole", "bytes", "rand")):
     return out
 
 
+def reqline_scripts(ctx, n):
+    """request lines with unusual delimiters, with and without htp_config_set_allow_space_uri (the two line-splitting paths of
+    htp_parse_request_line_generic_ex), NUL-terminating personalities included"""
+    rng = ctx.rng
+    sc = []
+    for _ in range(n):
+        line = rng.choice((b"GET /a b c HTTP/1.1", b"GET\t/x\tHTTP/1.1", b"GET  /two  HTTP/1.0", b"GET /a\tb HTTP/1.1", b"GET /trail HTTP/1.1 \t", b" \tGET /lead HTTP/1.1",
+                           b"GET /nul\x00rest HTTP/1.1", b"GET /only", b"GET", b"GET ", b"GET /x y", b"GET /x y ", b"POST /a b\tc d HTTP/1.1", b"GET /a\x0bb HTTP/1.1",
+                           b"GET /a\x0cb\x0bc HTTP/1.1", b"M-SEARCH * HTTP/1.1", b"GET http://h/a b HTTP/1.1", b"GET /%20 %20 HTTP/0.9",
+                           b"GET /index.html", b"GET\t/index.html\tHTTP/1.0", b"GET\t/index.html", b"GET /", b"GET  ", b"GET \t", b"G /", b"GET /a\t", b"GET\t\t/a"))
+        R = line + rng.choice((b"\r\n", b"\n")) + b"Host: h\r\n\r\n"
+        cfg = rng.choice(("respdecomp=0,spaceuri=1", "respdecomp=0", "p=IIS_6_0,respdecomp=0,spaceuri=1", "p=APACHE_2,respdecomp=0,spaceuri=1", "p=IIS_6_0,respdecomp=0"))
+        items = [">" + traffic.hx(p) for p in traffic.chunkings(R, rng, rng.choice(("whole", "rand", "bytes")))] + \
+                ["<" + traffic.hx(b"HTTP/1.1 200 OK\r\nContent-Length: 0\r\n\r\n")]
+        sc.append(traffic.script(cfg, "-", items))
+    return sc
+
+
 # ================================================================================================ C09
 
 def c09_scripts(ctx):
@@ -71,18 +89,7 @@ def c09_scripts(ctx):
     sc += tfile_scripts(ctx, modes=("whole", "rand"))
     sc += handover_scripts(ctx, 300 if ctx.tier == "quick" else 12000)
     sc += lib.load_fuzz_corpus(ctx, 1500, "C09")
-    # request lines with unusual delimiters, with and without htp_config_set_allow_space_uri (the two line-splitting paths of
-    # htp_parse_request_line_generic_ex), NUL-terminating personalities included
-    rng = ctx.rng
-    for _ in range(150 if ctx.tier == "quick" else 3000):
-        line = rng.choice((b"GET /a b c HTTP/1.1", b"GET\t/x\tHTTP/1.1", b"GET  /two  HTTP/1.0", b"GET /a\tb HTTP/1.1", b"GET /trail HTTP/1.1 \t", b" \tGET /lead HTTP/1.1",
-                           b"GET /nul\x00rest HTTP/1.1", b"GET /only", b"GET", b"GET ", b"GET /x y", b"GET /x y ", b"POST /a b\tc d HTTP/1.1", b"GET /a\x0bb HTTP/1.1",
-                           b"GET /a\x0cb\x0bc HTTP/1.1", b"M-SEARCH * HTTP/1.1", b"GET http://h/a b HTTP/1.1", b"GET /%20 %20 HTTP/0.9"))
-        R = line + rng.choice((b"\r\n", b"\n")) + b"Host: h\r\n\r\n"
-        cfg = rng.choice(("respdecomp=0,spaceuri=1", "respdecomp=0", "p=IIS_6_0,respdecomp=0,spaceuri=1", "p=APACHE_2,respdecomp=0,spaceuri=1", "p=IIS_6_0,respdecomp=0"))
-        items = [">" + traffic.hx(p) for p in traffic.chunkings(R, rng, rng.choice(("whole", "rand", "bytes")))] + \
-                ["<" + traffic.hx(b"HTTP/1.1 200 OK\r\nContent-Length: 0\r\n\r\n")]
-        sc.append(traffic.script(cfg, "-", items))
+    sc += reqline_scripts(ctx, 150 if ctx.tier == "quick" else 3000)
     return sc
 
 
@@ -240,7 +247,7 @@ def c05_oracle(sc, outs):
     for e in cl.all_events(sc, outs):
         r = mon.feed(e)
         if r:
-            k = r[0].split(":")[0]
+            k = r[0] if r[0].startswith(("complete-twice:", "after-complete:")) else r[0].split(":")[0]
             if k not in kinds:
                 kinds.add(k)
                 found.append(r)
@@ -270,7 +277,11 @@ def streams_of(sc):
 def c05_attribute(sig, sc, outs):
     """map a Monitor rejection to the known finding whose call site produces exactly this pattern (else keep the raw signature)"""
     rq, rs = streams_of(sc)
-    if sig in ("complete-twice", "after-complete"):
+    if sig.startswith(("complete-twice:", "after-complete:")):
+        # the two recorded call sites finalise a transaction a second time: what arrives late is transaction_complete (and, on the CONNECT
+        # path, the end-of-body marker of the response). Any other callback delivered twice or late is not one of them.
+        if sig not in ("after-complete:transaction_complete", "complete-twice:transaction_complete", "after-complete:response_body_data"):
+            return sig
         if b"CONNECT" in rq:
             return "S2"
         # S24: a direction ended in ERROR/STOP through a callback and an unmatched response made RES_IDLE finalise the tx again
@@ -1145,6 +1156,17 @@ def c03_scripts(ctx):
             rq = [b"POST /up?a=1 HTTP/1.1\r\nHost: h\r\nContent-Type: " + ct + b"\r\nContent-Length: %d\r\n\r\n" % len(body) + body]
             rs = [b"HTTP/1.1 200 OK\r\nContent-Length: 2\r\n\r\nok"]
             cfg = "respdecomp=0,urlenc=1,mpart=1"
+        if ei % 7 == 3:
+            # chunked bodies in both directions whose chunk-size lines carry long extensions: a cut inside an extension leaves eight or
+            # more non-hex bytes of the line in the next chunk (S41, repaired: the response probe took them for leading junk)
+            def chunked_ext(body):
+                o = b""
+                for piece in traffic.split_chunks(rng, body):
+                    o += b"%x" % len(piece) + b"".join(b";" + traffic.rand_token(rng, 1, 5) + b"=" + traffic.rand_token(rng, 6, 14)
+                                                      for _ in range(rng.randint(1, 2))) + b"\r\n" + piece + b"\r\n"
+                return o + b"0\r\n\r\n"
+            rq = [b"POST /c HTTP/1.1\r\nHost: h\r\nTransfer-Encoding: chunked\r\n\r\n" + chunked_ext(b"request body %d " % ei * rng.randint(1, 3))]
+            rs = [b"HTTP/1.1 200 OK\r\nTransfer-Encoding: chunked\r\n\r\n" + chunked_ext(b"response body %d " % ei * rng.randint(1, 3))]
         R, S = b"".join(rq), b"".join(rs)
         starts = [sum(len(x) for x in rs[:i]) for i in range(len(rs))]
         base = traffic.script(cfg, "-", [">" + traffic.hx(R), "<" + traffic.hx(S)])
